@@ -25,6 +25,7 @@ import (
 	epb "github.com/google/gce-tcb-verifier/proto/endorsement"
 	"github.com/google/gce-tcb-verifier/sev"
 	"github.com/google/gce-tcb-verifier/verify"
+	"github.com/google/go-sev-guest/abi"
 	cpb "github.com/google/go-sev-guest/proto/check"
 	spb "github.com/google/go-sev-guest/proto/sevsnp"
 	"github.com/google/go-sev-guest/validate"
@@ -72,6 +73,10 @@ func extractEndorsement(attestation *spb.Attestation, opts *SevValidateOptions) 
 	if opts.Getter == nil {
 		return nil, fmt.Errorf("could not extract endorsement")
 
+	}
+	// Only a full-length measurement names an endorsement object.
+	if size := len(attestation.GetReport().GetMeasurement()); size != abi.MeasurementSize {
+		return nil, fmt.Errorf("failed to get endorsement: measurement size is %d, want %d", size, abi.MeasurementSize)
 	}
 	obj := extractsev.GCETcbObjectName(sev.GCEUefiFamilyID, attestation.GetReport().GetMeasurement())
 	url := verify.GCETcbURL(obj)
